@@ -535,7 +535,7 @@ pub fn check(cfg: &RunCfg, findings: &Findings) -> Report {
     cfg,
     "C17-patterns",
     16,
-    if quick { 6_000 } else { 150_000 },
+    if quick { 40_000 } else { 300_000 },
     32,
     200,
     |src: &mut Src| {
